@@ -39,12 +39,21 @@
 //! DataFusion reservation against the pool it wraps; nothing claims buffers
 //! today, but the peak picks it up when something does.
 
+#[cfg(not(datafusion_verif))]
 use std::{
     fmt::{Debug, Display, Formatter},
     sync::{
         Arc,
         atomic::{AtomicUsize, Ordering},
     },
+};
+
+#[cfg(datafusion_verif)]
+use crate::verif_shims::atomic::{AtomicUsize, Ordering};
+#[cfg(datafusion_verif)]
+use std::{
+    fmt::{Debug, Display, Formatter},
+    sync::Arc,
 };
 
 use super::{MemoryConsumer, MemoryLimit, MemoryPool, MemoryReservation};
